@@ -189,12 +189,51 @@ class Render:
         return js
 
 
+def split_layers(t, layout):
+    """the flat object `t` written as an allOf hierarchy: every layer is a named component holding its own
+    members (and `allOf` references to its parents); T keeps the rest.  Same JSON-Schema meaning as `t`."""
+    props, req = t.get("properties", {}), t.get("required", [])
+    taken = set()
+    comps = {}
+    names = [l["name"] for l in layout["layers"]]
+    if len(set(names)) != len(names) or "T" in names or any(n.startswith("Hx") for n in names):
+        raise ValueError("layer names")
+    def own(ps):
+        o = {"type": "object"}
+        if ps:
+            o["properties"] = {p: props[p] for p in ps}
+        r = [p for p in req if p in ps]
+        if r:
+            o["required"] = r
+        return o
+    for i, l in enumerate(layout["layers"]):
+        ps = [p for p in l["props"] if p in props and p not in taken]
+        if len(ps) != len(l["props"]):
+            raise ValueError("layer members must be distinct members of the object")
+        taken.update(ps)
+        if any(q not in names[:i] for q in l["parents"]):
+            raise ValueError("parents must be earlier layers (no cycles: C12)")
+        comps[l["name"]] = {"allOf": [{"$ref": "#/components/schemas/" + q} for q in l["parents"]] + [own(ps)]} if l["parents"] else own(ps)
+    if not layout["root_parents"] or any(q not in names for q in layout["root_parents"]):
+        raise ValueError("root parents")
+    rest = [p for p in props if p not in taken]
+    root = {"allOf": [{"$ref": "#/components/schemas/" + q} for q in layout["root_parents"]] + ([own(rest)] if rest else [])}
+    return root, comps
+
+
 def spec_of(schema):
     if schema["k"] != "obj":
         raise ValueError("root must be an object")
     rd = Render()
     t = rd.obj(schema)
     comps = dict(rd.components)
+    if schema.get("layout"):
+        if schema["addl"] != "absent":
+            raise ValueError("allOf next to additionalProperties is outside the fragment")
+        t, extra = split_layers(t, schema["layout"])
+        if set(extra) & set(comps):
+            raise ValueError("layer names")
+        comps.update(extra)
     comps["T"] = t
     spec = {"openapi": "3.1.0", "info": {"title": "t", "version": "1"}, "paths": {}, "components": {"schemas": comps}}
     root = {"$schema": "https://json-schema.org/draft/2020-12/schema", "$ref": "#/components/schemas/T", "components": {"schemas": comps}}
@@ -405,9 +444,78 @@ def exhaustive(ctx, r):
     return out
 
 
+LAYER_NAMES = ["Aa", "Mid", "Plain", "Umid", "Zeta", "Zz"]     # on both sides of "T" in schema-name order
+
+
+def random_layout(r, names):
+    """an allOf hierarchy over the members `names`: 1-3 layers, flat / chained / mixed, in any name order"""
+    k = r.randint(1, min(3, max(1, len(names))))
+    lnames = r.sample(LAYER_NAMES, k)
+    pool = list(names)
+    r.shuffle(pool)
+    layers = []
+    for i, ln in enumerate(lnames):
+        take = [pool.pop()] if pool else []
+        while pool and r.random() < 0.3:
+            take.append(pool.pop())
+        parents = [q for q in lnames[:i] if r.random() < 0.5]
+        layers.append({"name": ln, "parents": parents, "props": sorted(take, key=lambda x: x.encode())})
+    used_as_parent = {q for l in layers for q in l["parents"]}
+    roots = [l["name"] for l in layers if l["name"] not in used_as_parent] or [layers[-1]["name"]]
+    return {"layers": layers, "root_parents": roots}
+
+
+def layered(ctx, r):
+    """members {a: required string, b: optional int32, c: required boolean, d: optional string with default}
+    spread over every 1-/2-layer hierarchy shape and every order of layer names around `T`"""
+    base = [{"n": "a", "s": {"k": "str"}, "req": True, "d": None}, {"n": "b", "s": {"k": "int", "f": "int32"}, "req": False, "d": None},
+            {"n": "c", "s": {"k": "bool"}, "req": True, "d": None}, {"n": "d", "s": {"k": "str"}, "req": False, "d": "dd"}]
+    out = []
+    import itertools
+    for n1, n2 in itertools.permutations(LAYER_NAMES, 2):
+        for shape in ("flat", "chain"):
+            for split in ((["a"], ["b"]), (["a", "b"], ["c"]), (["c"], ["a", "d"]), ([], ["a"])):
+                l1 = {"name": n1, "parents": [], "props": split[0]}
+                l2 = {"name": n2, "parents": [n1] if shape == "chain" else [], "props": split[1]}
+                roots = [n2] if shape == "chain" else [n1, n2]
+                out.append({"k": "obj", "props": copy.deepcopy(base), "addl": "absent", "layout": {"layers": [l1, l2], "root_parents": roots}})
+    for n1 in LAYER_NAMES:
+        out.append({"k": "obj", "props": copy.deepcopy(base), "addl": "absent", "layout": {"layers": [{"name": n1, "parents": [], "props": ["a", "b", "c", "d"]}], "root_parents": [n1]}})
+    return out
+
+
+KEYWORD_NAMES = ["title", "description", "default", "example", "examples", "enum", "type", "format", "required", "properties", "items", "const",
+                 "deprecated", "readOnly", "nullable", "allOf", "$ref", "x-ext", "externalDocs", "additionalProperties"]
+
+
+def keyword_named(ctx, r):
+    """two inline objects in one document that differ ONLY by members whose names are schema keywords: the members
+    are data, not annotations (each object keeps its own members on the wire)"""
+    out = []
+    base = [{"n": "id", "s": {"k": "int", "f": None}, "req": True, "d": None}, {"n": "name", "s": {"k": "str"}, "req": False, "d": None}]
+    picks = [[k] for k in KEYWORD_NAMES] + [["title", "description"], ["default", "example", "examples"], ["type", "format", "enum"]]
+    for extra in picks:
+        for req in (False, True):
+            second = sorted(base + [{"n": k, "s": {"k": "str"}, "req": req, "d": None} for k in extra], key=lambda p: p["n"].encode())
+            ps = [{"n": "m1", "s": {"k": "obj", "props": copy.deepcopy(base), "addl": "absent"}, "req": True, "d": None},
+                  {"n": "m2", "s": {"k": "obj", "props": second, "addl": "absent"}, "req": True, "d": None}]
+            out.append({"k": "obj", "props": ps, "addl": "absent"})
+    return out
+
+
 def cases(ctx):
     r = ctx.rng
     out = []
+    lay = layered(ctx, r)
+    for s in (r.sample(lay, 60) if ctx.quick else lay):
+        out.append(mk(s, gen_docs(s, r, 3, 5)))
+    kw = keyword_named(ctx, r)
+    for s in (r.sample(kw, 16) if ctx.quick else kw):
+        try:
+            spec_of(s)
+        except ValueError:
+            continue
+        out.append(mk(s, gen_docs(s, r, 3, 5)))
     ex = exhaustive(ctx, r)
     ok = []
     for s in ex:
@@ -429,6 +537,8 @@ def cases(ctx):
     for _ in range(n):
         s = wrap_root(gen_schema(r, r.choice([1, 2, 2, 3]), {}))
         s.pop("ref", None)
+        if s["addl"] == "absent" and len(s["props"]) >= 2 and r.random() < 0.3:
+            s["layout"] = random_layout(r, [p["n"] for p in s["props"]])
         try:
             spec_of(s)
         except ValueError:
@@ -547,8 +657,8 @@ def run(ctx):
             "numbers are identified with canonical decimals (generated decimals have <= 6 significant digits; 1 and 1.0 are one value)",
             "syn-based expansion of the emitted types (harness/src/k_codec.rs); type NAMES are dropped (C09/C13)"],
         rule="E: bounded-exhaustive one-member objects {string, boolean, number x {none,float}, integer x 9 formats, 4 enums, 2 inline/$ref objects} x 9 wrappers (plain, nullable, array, map, nested) x {required, optional, default} x additionalProperties {absent, false, integer, string} "
-             "+ field-name collision families + random schema trees of depth <= 3 (inline / hoisted into components at random); each with valid instances from an independent generator and single-mutation near-misses "
+             "+ field-name collision families + the same objects written as allOf hierarchies (bounded-exhaustive two-layer shapes x all layer-name orders; random 1-3 layer layouts on 30% of the random trees) + pairs of inline objects that differ only by members named like schema keywords + random schema trees of depth <= 3 (inline / hoisted into components at random); each with valid instances from an independent generator and single-mutation near-misses "
              "(missing required, wrong JSON type, undeclared enum value, unknown member, positional array); A (thorough): 600 of those compiled and executed; distinct by input hash, non-trivial = any case",
         assumptions=["the root schema is an object named T; non-object schemas are tested as its required member `v`",
-                     "default --enum-mode merge, no discriminators/unions/allOf (C13/C14/C15), no string formats with serde_with codecs (date, date-time, uuid, byte), no `additionalProperties: true`",
+                     "default --enum-mode merge, no discriminators/unions (C13/C14/C15); allOf only as a hierarchy of plain objects (members spread over 1-3 named layers, flat or chained, layer names on both sides of the root in name order), no string formats with serde_with codecs (date, date-time, uuid, byte), no `additionalProperties: true`",
                      "property names are ASCII (any_ascii is the identity) and avoid C09's panicking names"])
